@@ -177,6 +177,8 @@ def create_case(case, d):
         os.makedirs(base); open(os.path.join(base, 'x.txt'), 'w').write('x')
     elif occ == 'file':
         open(base, 'w').write('just a file')
+    elif occ == 'emptydir':
+        os.makedirs(base)            # an existing directory, still empty (tempfile.mkdtemp()): it exists
     elif occ == 'danglinglink':
         # the path exists as a symbolic link whose target does not: still an existing thing
         os.symlink(os.path.join(outside, 'elsewhere.tar.xz'), base)
@@ -248,4 +250,27 @@ def bare_names(case, d):
         out.append(dict(final='ok'))
     except Exception as e:
         out.append(dict(final=f'{type(e).__name__}: {e}'[:200]))
+    return out
+
+
+def absent_protected(case, d):
+    """protected names that do not exist yet (metadata.json of an array without metadata, a new name under
+    values/ or indices/): creating them through the DataDir is refused"""
+    base = os.path.join(d, 'arr')
+    a = make(case['kind'], base, meta=False)
+    dd = a.datadir
+    out = []
+    for name in case['names']:
+        for how in ('write_txt', 'write_jsondict', 'open_x', 'open_w'):
+            before = snapshot(base)
+            if how == 'write_txt':
+                r = attempt(lambda: dd.write_txt(name, 'x'))
+            elif how == 'write_jsondict':
+                r = attempt(lambda: dd.write_jsondict(name, {'a': 1}))
+            else:
+                def f():
+                    with dd.open_file(name, 'x' if how == 'open_x' else 'w') as fh:
+                        fh.write('x')
+                r = attempt(f)
+            out.append(dict(name=name, how=how, res=r[:2], unchanged=snapshot(base) == before))
     return out
